@@ -14,6 +14,7 @@ CONSTANTS
   CallValues = {0, 1, 9}
   CallReqs <- DepthCallReqs
   CreateValues = {1}
+  NatTargets = {}
 INVARIANTS TypeOK GasNeverGrows Conservation FinalState
 PROPERTIES FrameAtomic ValueStaysWithCaller
 CHECK_DEADLOCK FALSE
